@@ -15,7 +15,11 @@ import re
 import subprocess
 import sys
 import time
+import shutil
+import tempfile
 import traceback
+
+from harness import covprobe
 
 VERIF = os.path.dirname(os.path.dirname(os.path.abspath(__file__)))
 LEAN = os.path.join(VERIF, 'lean')
@@ -283,6 +287,8 @@ def _impl_worker(args):
         return prop.run_impl(case)
     except BaseException as ex:  # the harness itself failed; surfaced as an infrastructure error
         return {'_harness_error': '%s: %s\n%s' % (type(ex).__name__, ex, traceback.format_exc()[-3000:])}
+    finally:
+        covprobe.flush()
 
 
 def canon(x):
@@ -386,6 +392,14 @@ class Run(object):
         return cur, None, None, None
 
     def main(self):
+        covdir = tempfile.mkdtemp(prefix='verif-cov-')
+        try:
+            covprobe.install(covdir, REPO)
+            return self._main(covdir)
+        finally:
+            shutil.rmtree(covdir, ignore_errors=True)
+
+    def _main(self, covdir):
         prop = self.prop
         a = audit(prop.ID, thorough=(self.tier == 'thorough'))
         if a['bad']:
@@ -454,6 +468,12 @@ class Run(object):
         # evidence describes /repo itself; a run against a scratch copy (VERIF_REPO, mutation testing) keeps its own
         evdir = os.path.join(VERIF, 'evidence') if os.path.realpath(REPO) == '/repo' else os.path.join(VERIF, 'replays', 'scratch-evidence')
         os.makedirs(evdir, exist_ok=True)
+        # which lines of the tree under test this run executed (measured, not decisive)
+        lines = covprobe.report(covdir, REPO)
+        ev['coverage']['repo_lines_executed'] = {
+            f: {'executed': '%d/%d' % (r['executed'], r['executable']),
+                'missed': r['missed'] if len(r['missed']) <= 80 else r['missed'][:80] + ['...']}
+            for f, r in lines.items() if r['executed'] > 0 and not f.endswith('__init__.py')}
         with open(os.path.join(evdir, prop.ID + '.json'), 'w') as f:
             json.dump(ev, f, indent=1, sort_keys=True, default=repr)
         kfs = {f['id']: f for f in load_known_findings() if f['property'] == prop.ID}
